@@ -165,7 +165,9 @@ class ParsedDocstring(abc.ABC):
         """
         try:
             document = self.to_node()
-        except NotImplementedError:
+        except Exception:
+            # to_node() is not implemented or the conversion failed,
+            # the failure is reported when the docstring itself is rendered.
             return None
         contents = build_table_of_content(document, depth=depth)
         docstring_toc = new_document('toc')
